@@ -641,3 +641,30 @@ def boolean_verdict(func_node):
     except _NoVerdict:
         return None
     return tuple(names), table
+
+
+def same_module_helpers(ix, f, depth=2):
+    """f followed by the private helpers it calls that live next to it: nested functions, module-level `_helpers` of the
+    same module and `self._method` / `cls._method` of the same class (transitively, bounded).  A block that a refactoring
+    moved into such a helper still belongs to the function for every rule that asks "does this function ever ..."."""
+    out, todo, seen = [f], [(f, 0)], {f.qual}
+    while todo:
+        g, d = todo.pop(0)
+        if d >= depth:
+            continue
+        for c in calls_in(g.node, nested=True):
+            h = None
+            if isinstance(c.func, ast.Name):
+                h = g.nested.get(c.func.id) or (g.parent.nested.get(c.func.id) if getattr(g, "parent", None) is not None else None)
+                if h is None and c.func.id.startswith("_"):
+                    h = g.module.functions.get(c.func.id)
+            elif isinstance(c.func, ast.Attribute) and isinstance(c.func.value, ast.Name) and c.func.value.id in ("self", "cls") \
+                    and c.func.attr.startswith("_") and not c.func.attr.startswith("__") and g.cls is not None:
+                h = g.cls.lookup(c.func.attr) if hasattr(g.cls, "lookup") else None
+                if h is not None and h.module is not g.module:
+                    h = None
+            if h is not None and h.qual not in seen:
+                seen.add(h.qual)
+                out.append(h)
+                todo.append((h, d + 1))
+    return out
